@@ -29,11 +29,21 @@ class C15(core.Prop):
                 for o in ops:
                     o[1] = dict(o[1], via="wire")
             if mode == "tcp":
+                c["for_blobs"] = rng.random() < 0.3
+                if c["for_blobs"]:
+                    # the BLOB connection has no threshold: an image of any size arrives, in whatever pieces
+                    import base64
+                    for m in stream:
+                        if m["kind"] == "setBLOBVector":
+                            for ch in m.get("children") or []:
+                                if ch.get("value") == "QUJD" and ch["attrs"].get("size") == "3" and rng.random() < 0.6:
+                                    n = rng.choice([1500, 1600, 3000, 6100])
+                                    ch["value"] = base64.b64encode(bytes((7 * i + n) % 251 for i in range(n))).decode()
+                                    ch["attrs"]["size"] = str(n)
                 text = ""
                 for m in stream:
                     text += latin(xmlgen.document(rng, xmlgen.msg_tree(m), rng.choice(xmlgen.STYLES), decl=rng.choice(["", '<?xml version="1.0"?>\n'])))
                 c["pieces"] = [p for p in bufgen.cuts(rng, text, rng.choice(["cuts", "chars", "whole", rng.randint(2, 9)])) if p]
-                c["for_blobs"] = rng.random() < 0.3
             cases.append(c)
         return cases
 
